@@ -618,6 +618,7 @@ func main() {
 	h.auxCases()
 	h.programCases()
 	h.adversarialCases()
+	h.registerProducerCases()
 	h.txCases()
 
 	h.st.Traces = h.st.Evals
